@@ -56,6 +56,17 @@ unsigned int __CPROVER_uninterpreted_umod32(unsigned int, unsigned int);
 #define XV_UDIV32(a, b) __CPROVER_uninterpreted_udiv32((a), (b))
 #define XV_UMOD32(a, b) __CPROVER_uninterpreted_umod32((a), (b))
 
+/* signed * / % as uninterpreted functions (units lowered with uf_mul='all'); division keeps its trap obligation */
+int __CPROVER_uninterpreted_smul32(int, int);
+int __CPROVER_uninterpreted_sdiv32(int, int);
+int __CPROVER_uninterpreted_smod32(int, int);
+#define XV_SMUL32(a, b) __CPROVER_uninterpreted_smul32((a), (b))
+#define XV_SDIV32_SPEC(a, b) __CPROVER_uninterpreted_sdiv32((a), (b))
+#define XV_SMOD32_SPEC(a, b) __CPROVER_uninterpreted_smod32((a), (b))
+static inline int xv_sdiv32(int a, int b) { __CPROVER_assert(b != 0, "division by zero (integer /)"); return __CPROVER_uninterpreted_sdiv32(a, b); }
+static inline int xv_smod32(int a, int b) { __CPROVER_assert(b != 0, "division by zero (integer %)"); return __CPROVER_uninterpreted_smod32(a, b); }
+#define XV_SDIV32(a, b) xv_sdiv32((a), (b))
+#define XV_SMOD32(a, b) xv_smod32((a), (b))
 static xv_empty xv_empty_value;
 unsigned long __CPROVER_uninterpreted_stdhash(unsigned long);
 #define XV_STDHASH(x) __CPROVER_uninterpreted_stdhash(x)   /* std::hash<integer>: some function of the value */
